@@ -21,11 +21,27 @@ AREA = "tendril_core"
 T = "tendril::Tendril<F,A>::"
 
 
+def _const(ctx, name):
+    """value of a scalar constant of tendril.rs, as the normal forms render it (uses are substituted by value)"""
+    for it in ctx.ast.crates["tendril"]:
+        if it["k"] in ("Const", "Static") and it.get("name") == name and it.get("init") is not None:
+            e = it["init"]
+            while e.get("k") in ("Paren", "Cast"):
+                e = e["e"]
+            if e.get("k") == "Lit":
+                return str(e["v"])
+    raise AnchorMissing("tendril constant %s not found" % name)
+
+
+def _tag(ctx):
+    return _const(ctx, "MAX_INLINE_TAG")
+
+
 def r12_1(ctx):
     key, pcs = nfq.cells(ctx, AREA, "tendril::Tendril<F,A>[Clone]::clone")
     n = 0
     for pc in nfq.feasible(pcs):
-        heap = pc["guards"].get("(self.ptr.get().get() > MAX_INLINE_TAG)")
+        heap = pc["guards"].get("(self.ptr.get().get() > %s)" % _tag(ctx))
         names = nfq.names(pc)
         if heap:
             n += 1
@@ -58,7 +74,7 @@ def r12_2(ctx):
         names = nfq.names(pc)
         g = pc["guards"]
         destroys = sum(1 for a in names if a.endswith(".destroy"))
-        inline = g.get("(self.ptr.get().get() <= MAX_INLINE_TAG)")
+        inline = g.get("(self.ptr.get().get() <= %s)" % _tag(ctx))
         shared = [v for k, v in g.items() if k.startswith("self.assume_buf().1")]
         last = [v for k, v in g.items() if "refcount.decrement() == 1" in k]
         n += 1
@@ -175,9 +191,9 @@ def r12_5(ctx):
         fname = key.rsplit("::", 1)[-1]
         for pc in pcs:
             for a, args in pc["actions"]:
-                if a == "set self.ptr" and args and ("inline_tag(" in str(args[0]) or "EMPTY_TAG" in str(args[0])):
+                if a == "set self.ptr" and args and ("inline_tag(" in str(args[0]) or "EMPTY_TAG" in str(args[0]) or str(args[0]) in ("new(%s)" % _const(ctx, "EMPTY_TAG"), "new_unchecked(%s)" % _const(ctx, "EMPTY_TAG"))):
                     n += 1
-                    ok = any(v2 and "self.ptr.get().get() <= MAX_INLINE_TAG" in g for g, v2 in pc["guards"].items())
+                    ok = any(v2 and ("self.ptr.get().get() <= %s" % _tag(ctx)) in g for g, v2 in pc["guards"].items())
                     ctx.ob("R12.5", "inline-tag-only-over-inline/%s" % fname, ok,
                            "self.ptr is overwritten with an inline tag only when it held an inline tag" if ok else
                            "self.ptr is overwritten with an inline tag on a path that has not established that the tendril is inline: an owned or shared heap buffer (and its reference count) is leaked")
